@@ -114,7 +114,8 @@ class PhasePredictor(QTable):
             raise ValueError("Some timestamps outside predictor range!")
 
         span_ends = self["tmid"] + self["span"] / 2
-        index = np.searchsorted(span_ends.mjd, times.mjd)
+        # Same time scale on both sides: .mjd is the reading in the object's own scale
+        index = np.searchsorted(span_ends.mjd, getattr(times, span_ends.scale).mjd)
         dt = (times - self["tmid"][index]).to_value(u.s)
         return index, dt
 
